@@ -68,7 +68,7 @@ Clause(name, ok, tag, k) == ok \/ PrintT(<<"VIOL", name, k, tag>>)
 \* ---------------------------------------------------------------- ghosts
 G0 == [tr |-> -1, brought |-> 0, taken |-> 0, banks |-> <<>>, bankIds |-> {}, lastGc |-> 0, gids |-> {}, handLive |-> FALSE,
        handIds |-> <<>>, openBank |-> <<>>, openBlind |-> <<>>, openLabels |-> <<>>, lastParts |-> {}, afterBank |-> <<>>, afterIds |-> {},
-       missed |-> <<>>, missedIds |-> {}, ext |-> FALSE, extSetup |-> FALSE, openWin |-> {}, closedBetween |-> FALSE, lastStatus |-> "none",
+       missed |-> <<>>, missedIds |-> {}, ext |-> FALSE, extSetup |-> FALSE, openWin |-> {}, botCalls |-> {}, closedBetween |-> FALSE, lastStatus |-> "none",
        cnt |-> <<>>, cntIds |-> {}, actEvents |-> <<>>, spyCalls |-> <<>>, inGate |-> "", blindSet |-> <<>>, blindSetInGate |-> FALSE,
        leftSince |-> {}, faults |-> 0, lastUpd |-> 0, kfMidLeave |-> FALSE,
        withholdSt |-> <<>>, settledSt |-> <<>>, openSt |-> <<>>, callQ |-> <<>>, pubH |-> <<>>, nospy |-> FALSE, ownTid |-> "", engineHand |-> <<>>, engineStatus |-> "none", lastGcSeen |-> 0, enginePlayers |-> 0, autoFails |-> 0, errEvents |-> 0, afterFire |-> FALSE, fireSt |-> <<>>]
@@ -147,7 +147,9 @@ Upd(gg, k) ==
         ELSE IF t.ev \in {"call:PlayersLeave", "call:UpdateTablePlayers"}      \* (announced before the call: its events come first)
         THEN [g4 EXCEPT !.kfMidLeave = @ \/ (g4.handLive /\ \E id \in Range(t.a.ids) : id \in Range(g4.handIds))]
         ELSE g4
-      g6 == IF t.ev = "withhold" THEN [g5 EXCEPT !.withholdSt = <<st>>] ELSE g5
+      g6 == IF t.ev = "withhold" THEN [g5 EXCEPT !.withholdSt = <<st>>]
+            ELSE IF t.ev = "botcall" /\ t.res = "ok" THEN [g5 EXCEPT !.botCalls = @ \cup {<<t.a.id, t.a.note>>}]
+            ELSE g5
       g7 == IF t.ev \in {"q", "end"} THEN [g6 EXCEPT !.settledSt = <<>>] ELSE g6
       g7b == IF t.ev = "spy" /\ t.res = "fail" /\ t.a.kind \in {"readyall", "ante", "blinds", "next", "create"} THEN [g7 EXCEPT !.autoFails = @ + 1]
              ELSE IF t.ev = "cb:error" THEN [g7 EXCEPT !.errEvents = @ + 1] ELSE g7
@@ -500,6 +502,10 @@ C15_extend(t) ==
   (t.ev = "ret:PlayerExtendActionDeadline" /\ t.res = "ok" /\ Len(t.pre) = 1) =>
     (t.a.chips = t.pre[1].deadline + t.a.amt /\ t.st.deadline = t.a.chips)
 
+\* ---------------------------------------------------------------- C18 (all-bot tables: what the bots submit to the real engine)
+C18_botCallAccepted(t) == t.ev = "botcall" => t.res = "ok"
+C18_oneActionPerRequest(t, gg) == (t.ev = "botcall" /\ t.res = "ok") => <<t.a.id, t.a.note>> \notin gg.botCalls
+
 \* ---------------------------------------------------------------- the verdict
 CheckLine(k, gg) ==
   LET t == Trace[k]  st == t.st
@@ -523,6 +529,8 @@ CheckLine(k, gg) ==
   /\ (midOp \/ t.a.note = "background" \/ MemberConforms(t) \/ PrintT(<<"DRIFT", k, t.ev, t.res>>))
   /\ (PositionsConform(t) \/ PrintT(<<"DRIFT", k, "positions", "open">>))
   /\ Clause("C18_botTablePlaysOut", t.ev # "botstall", "", k)
+  /\ Clause("C18_botCallAccepted", C18_botCallAccepted(t), "", k)
+  /\ Clause("C18_oneActionPerRequest", C18_oneActionPerRequest(t, gg), "", k)
   /\ Clause("C03_noPanic", t.res # "panic" /\ st.status # "projection-panic" /\ t.ev # "crash", kfmid, k)
   /\ ok =>
      /\ Clause("C03_bijection", ((Trusty(t) \/ IsRet(t)) /\ ~midOp) => C03_bijection(st), kfmid, k)
